@@ -623,8 +623,12 @@ package meta
 // accepts backwards from it (or is trivially satisfied at offset 0) and the suffix half accepts forwards from it
 //@ uninterpreted spec func riRef(s *ReverseInnerSearcher, h []byte) bool
 //@ uninterpreted spec func riCand(s *ReverseInnerSearcher, h []byte) int
-//@ spec func riAcc(s *ReverseInnerSearcher, h []byte, c int) bool = ((c == 0 && (s.universalPrefix || s.startAnchored)) || (c > 0 && revAcc(s.reverseDFA, h, c))) && dfaHasMatch(s.forwardDFA, h[c:])
-//@ spec func riOK(s *ReverseInnerSearcher) bool = s != nil && s.reverseDFA != nil && s.reverseDFA.pikevm != nil && s.forwardDFA != nil && s.pikevm != nil && s.prefilter != nil && (forall h []byte :: riRef(s, h) ==> 0 <= riCand(s, h) && pfOcc(s.prefilter, h, riCand(s, h)) && riAcc(s, h, riCand(s, h))) && (forall h []byte, c int :: 0 <= c && c < len(h) && riAcc(s, h, c) ==> riRef(s, h)) && (forall h []byte :: pvFound(s.pikevm, h) == riRef(s, h)) && (forall h []byte, i int :: pfOcc(s.prefilter, h, i) ==> 0 <= i && i < len(h))
+// necessary for a match through candidate c (ASSUMED of every match) / sufficient for one (ASSUMED): at offset 0 the
+// prefix half has nothing to scan - it is known to accept only for .* or anchors-only prefixes, otherwise the code asks
+// the PikeVM
+//@ spec func riNeed(s *ReverseInnerSearcher, h []byte, c int) bool = (c == 0 || revAcc(s.reverseDFA, h, c)) && dfaHasMatch(s.forwardDFA, h[c:])
+//@ spec func riSuff(s *ReverseInnerSearcher, h []byte, c int) bool = ((c == 0 && (s.universalPrefix || s.startAnchored)) || (c > 0 && revAcc(s.reverseDFA, h, c))) && dfaHasMatch(s.forwardDFA, h[c:])
+//@ spec func riOK(s *ReverseInnerSearcher) bool = s != nil && s.reverseDFA != nil && s.reverseDFA.pikevm != nil && s.forwardDFA != nil && s.pikevm != nil && s.prefilter != nil && (forall h []byte :: riRef(s, h) ==> 0 <= riCand(s, h) && pfOcc(s.prefilter, h, riCand(s, h)) && riNeed(s, h, riCand(s, h))) && (forall h []byte, c int :: 0 <= c && c < len(h) && riSuff(s, h, c) ==> riRef(s, h)) && (forall h []byte :: pvFound(s.pikevm, h) == riRef(s, h)) && (forall h []byte, i int :: pfOcc(s.prefilter, h, i) ==> 0 <= i && i < len(h))
 //@ func (*ReverseInnerSearcher).IsMatch
 //@   props C01 C05
 //@   opt safety=off
